@@ -281,16 +281,31 @@ def run(ctx: Ctx) -> None:
         W, H, n, m = key[:4]
         for k in (0, 1, 2, 3):
             d = 2 * (n - m) + 2 * k
-            a = alpha
-            if len(alpha) ** d > (3_000 if quick else 600_000):
-                a = SUB
-                lim = (16_000 if quick else 400_000)
-                if len(key) > 4 and key[4] > 0 and (n - m) > 1:
-                    lim = (700 if quick else 16_000)  # additional templates
-                if len(a) ** d > lim:
-                    caps.add(f"n-m={n - m}, k={k} (d={d}) not explored")
-                    continue
-                caps.add(f"n-m={n - m}, k={k} (d={d}): 5-value sub-alphabet")
+            extra = len(key) > 4 and key[4] > 0
+            # budgets (vectors per template and length): the full alphabet
+            # for short vectors, the 7-value alphabet next, the 5-value
+            # sub-alphabet for the longest ones
+            if quick:
+                order = [(alpha, 3_000), (SUB, 16_000 if not (
+                    extra and (n - m) > 1) else 700)]
+            else:
+                order = [(alpha, 60_000), (ALPHA, 120_000 if not extra
+                                           else 20_000),
+                         (SUB, 400_000 if not extra else 16_000)]
+            a = None
+            for (cand, lim) in order:
+                if len(cand) ** d <= lim:
+                    a = cand
+                    break
+            if a is None:
+                caps.add(f"n-m={n - m}, k={k} (d={d})"
+                         f"{' additional templates' if extra else ''} "
+                         "not explored")
+                continue
+            if a is not alpha:
+                caps.add(f"n-m={n - m}, k={k} (d={d})"
+                         f"{' additional templates' if extra else ''}: "
+                         f"{len(a)}-value sub-alphabet")
             ns = len(a) if len(a) ** d > 10000 else 1
             jobs += [(key, rows, d, a, s, ns) for s in range(ns)]
     for c in sorted(caps):
